@@ -14,6 +14,7 @@ from sievelib import parser as sparser      # noqa: E402
 assert os.path.abspath(sfactory.__file__).startswith(os.path.abspath(REPO)), sfactory.__file__
 
 DEFS = {
+    "D3": ([("Subject", ":is", "d3")], [("redirect", "D3@example.org"), ("keep",)], "anyof"),     # needs no extension
     "D1": ([("Subject", ":contains", "d1")], [("fileinto", "D1")], "anyof"),
     "D2": ([("size", ":over", "100K"), ("exists", "X-A", "X-B")], [("fileinto", ":copy", "D2"), ("stop",)], "allof"),
 }
@@ -44,6 +45,10 @@ def def_of(cmd):
             v = node.arguments.get("mailbox")
             if isinstance(v, str):
                 return v.strip('"')
+        if node.name == "redirect":
+            v = node.arguments.get("address")
+            if isinstance(v, str):
+                return v.strip('"').split("@")[0]
     return "?"
 
 
@@ -72,10 +77,18 @@ def render(fs):
     return buf.getvalue()
 
 
+_shared = []
+
+
 def reload(fs, prefixes):
-    """-> (new set, problem or None)"""
+    """-> (new set, problem or None).  The Parser object is reused from one reload to the next and, in between,
+    has read a script that fails with marker comments still pending: none of that may leak into the load."""
     text = render(fs)
-    p = sparser.Parser()
+    if not _shared:
+        _shared.append(sparser.Parser())
+    p = _shared[0]
+    pre = prefixes or ("# Filter: ", "# Description: ")
+    p.parse("%sstale name\n%sstale description\nif true {" % pre)
     if not p.parse(text):
         return None, "rendered script rejected by the parser: %s" % p.error
     fs2 = sfactory.FiltersSet("reloaded", *prefixes) if prefixes else sfactory.FiltersSet("reloaded")
